@@ -4,6 +4,7 @@
 //	o:N  e:N        write N bytes of the deterministic pattern to stdout / stderr
 //	O:N  E:N        same, with a newline every 61 bytes
 //	or:N er:N       same, with CR LF pairs and lone CRs
+//	ol:N el:N       N short lines, one write each, paced so that the reader sees N separate pieces
 //	po:N pe:N       open /dev/stdout resp. /dev/stderr by path again (truncating or appending) and write N bytes there
 //	co   ce         close stdout / stderr
 //	x:N             exit with status N
@@ -29,6 +30,7 @@ import (
 	"strings"
 	"syscall"
 	"time"
+	"unsafe"
 )
 
 // Pattern returns the deterministic output pattern (kept in sync with hx.EmitPattern).
@@ -72,6 +74,21 @@ func reopened(path string, b []byte, trunc bool) {
 	}
 	writeAll(f, b)
 	f.Close()
+}
+
+// lines writes n short lines, one write(2) each, and lets the reader drain the pipe in between (so that
+// the lines arrive as n separate pieces; kept in sync with hx.EmitLines).
+func lines(f *os.File, n int) {
+	for i := 0; i < n; i++ {
+		writeAll(f, []byte(fmt.Sprintf("line %d of the log\n", i)))
+		for spin := 0; spin < 2000; spin++ {
+			var pending int32
+			if _, _, errno := syscall.Syscall(syscall.SYS_IOCTL, f.Fd(), 0x541B /* FIONREAD */, uintptr(unsafe.Pointer(&pending))); errno != 0 || pending == 0 {
+				break
+			}
+			time.Sleep(20 * time.Microsecond)
+		}
+	}
 }
 
 func writeAll(f *os.File, b []byte) {
@@ -118,6 +135,10 @@ func main() {
 			reopened("/dev/stdout", pattern(num(), true), num()%2 == 0)
 		case "pe":
 			reopened("/dev/stderr", pattern(num(), true), num()%2 == 0)
+		case "ol":
+			lines(os.Stdout, num())
+		case "el":
+			lines(os.Stderr, num())
 		case "co":
 			os.Stdout.Close()
 		case "ce":
